@@ -7,12 +7,12 @@ from ..boot import priv
 PROP = 'C07'
 LEVEL = 'exploration'
 INVARIANTS = ('double_vote', 'double_vote_across_restart', 'stale_leader_followed', 'stale_leader_followed_across_restart',
-              'stale_candidate_followed', 'stale_candidate_followed_across_restart', 'two_leaders')
+              'stale_candidate_followed', 'stale_candidate_followed_across_restart', 'two_leaders', 'acknowledged_term_lost_across_restart')
 for _i in INVARIANTS:
     INV_PROP.setdefault(_i, PROP)
 RULE = ('one case = one seeded execution of a 2-5 voter cluster of journaled nodes under the C03 schedule space (independent '
         'clocks, short election timeouts, resets, holds, partitions) extended with kills between steps and at storage ops and '
-        'restarts, biased to kill a voter right after it granted a vote; votes, terms and acknowledgements are keyed by node '
+        'restarts, biased to kill a voter right after it granted a vote or first acknowledged a leader of a new term; votes, terms and acknowledgements are keyed by node '
         'address across incarnations; distinct = distinct event/state log digest; non-trivial = at least one voter that had '
         'granted a vote or acknowledged a leader in the highest term so far was restarted, and at least 3 terms had a candidate')
 COMPONENTS_REAL = REAL_CLUSTER
@@ -31,6 +31,8 @@ class DurableTap(object):
         self.acked = {}          # host -> (highest term acknowledged (vote or success ack), incarnation)
         self.hot = None          # voter that has just granted a vote (for the adversary)
         self.restarted_after_ack = 0
+        self.below = {}
+        self.last_new_term_ack = None
 
     def _inc(self, i):
         return self.w.hosts[i].inc
@@ -74,9 +76,28 @@ class DurableTap(object):
                             'host %d acknowledges entries to a leader of term %d after having acknowledged term %d (incarnation %d -> %d)' % (src, term, a[0], a[1], inc), dict(host=src))
             if a is None or term > a[0]:
                 self.acked[src] = (term, inc)
+                # a term learned from a leader's append_entries (no vote involved) is a moment for the adversary too
+                self.hot = src
+                self.last_new_term_ack = (src, inc)
+                self.w.probe('new_term_acknowledged')
 
     def on_recv(self, dst, node, msg):
         pass
+
+
+class C07Oracle(RaftOracle):
+    def on_start(self, host):
+        RaftOracle.on_start(self, host)
+        tap = self.w.tap
+        a = tap.acked.get(host.idx) if tap is not None else None
+        n = host.node
+        if a is not None and n is not None and n.raftCurrentTerm < a[0]:
+            # The witness state of "follows an older term after a restart": every message of a term in between that the
+            # network still holds (a delayed append_entries or vote request of a deposed leader / candidate) is accepted
+            # from here.  Reported at the restart because whether such a message is on its way is the scheduler's choice.
+            self.flag('acknowledged_term_lost_across_restart',
+                      'host %d acknowledged term %d (incarnation %d) and comes back with current term %d: it will follow any leader or candidate of a term in between' % (
+                          host.idx, a[0], a[1], n.raftCurrentTerm), dict(host=host.idx))
 
 
 class C07Sched(Scheduler):
@@ -85,13 +106,49 @@ class C07Sched(Scheduler):
     def __init__(self, world, rng, cfg):
         Scheduler.__init__(self, world, rng, cfg)
         self.restart_soon = []
+        self.pair_after = None
+        self.dep = dict(phase='wait_leader', t0=rng.choice([0.5, 2.0, 4.0])) if cfg.get('deposed_scenario') else None
+
 
     def next_event(self):
         w, rng = self.w, self.rng
         tap = w.tap
+        if tap is not None:
+            # reach probe (zero on the pinned tree): a process came back with a term below one its node acknowledged
+            for h in w.hosts:
+                a = tap.acked.get(h.idx)
+                if h.node is not None and a is not None and a[1] != h.inc and h.node.raftCurrentTerm < a[0] and tap.below.get(h.idx) != h.inc:
+                    tap.below[h.idx] = h.inc
+                    w.probe('recovered_term_below_acknowledged')
+        if self.pair_after is not None and not self.queue:
+            i, self.pair_after = self.pair_after, None
+            n = w.hosts[i].node
+            a = tap.acked.get(i) if tap is not None else None
+            if n is not None and a is not None and n.raftCurrentTerm < a[0]:
+                stale = [h.idx for h in w.hosts if h.node is not None and h.idx != i and
+                         priv(h.node, 'SyncObj', 'raftState') == 2 and n.raftCurrentTerm <= h.node.raftCurrentTerm < a[0]]
+                if stale:
+                    x = rng.choice(stale)
+                    g = [0] * len(w.hosts)
+                    g[i] = g[x] = 1
+                    w.probe('restart_next_to_stale_leader')
+                    return [0.0, 'part', g]
+        ev = self._deposed_scenario()
+        if ev is not None:
+            return ev
         if self.restart_soon and rng.random() < 0.25:
             i = self.restart_soon.pop(0)
             if w.hosts[i].node is None:
+                # adversary: bring the node back alone, look at the term it recovered, and if that is below a term it has
+                # acknowledged let it meet - alone - a node that still leads a term in between (the traffic of such a leader
+                # is what a node that lost its term would follow)
+                a = tap.acked.get(i) if tap is not None else None
+                if a is not None and rng.random() < 0.7:
+                    g = [0] * len(w.hosts)
+                    g[i] = 1
+                    self.queue.append([0.0, 'start', i])
+                    self.pair_after = i
+                    return [0.0, 'part', g]
                 return [rng.choice([0.0, 0.01, 0.1]), 'start', i]
         if tap is not None and tap.hot is not None:
             v = tap.hot
@@ -101,6 +158,66 @@ class C07Sched(Scheduler):
                 w.probe('kill_right_after_vote')
                 return [0.0, 'kill', v, 1]
         return Scheduler.next_event(self)
+
+
+def _leaders(w):
+    return [h.idx for h in w.hosts if h.node is not None and priv(h.node, 'SyncObj', 'raftState') == 2]
+
+
+def _deposed_scenario(self):
+    """Guided schedule (a share of the five-voter runs; the generic scheduler keeps choosing ticks, deliveries and
+    submissions in between): a leader X is cut off alone together with one more node N; the other three elect Y; N joins
+    them and learns the new term from append_entries only; N is killed right after its acknowledgement and comes back
+    next to X, which still leads the old term."""
+    w, rng = self.w, self.rng
+    st = self.dep
+    if st is None:
+        return None
+    n = len(w.hosts)
+    ph = st['phase']
+    if ph == 'off':
+        self.dep = None
+        return None
+    if w.T > st.get('deadline', 1e18):
+        w.probe('deposed_scenario_gave_up_in_' + ph)
+        st['phase'] = 'off'
+        return [0.0, 'heal']
+    if ph == 'wait_leader':
+        ls = _leaders(w)
+        if len(ls) == 1 and all(h.node is not None for h in w.hosts) and w.groups is None and w.T > st['t0']:
+            x = ls[0]
+            nn = rng.choice([i for i in range(n) if i != x])
+            st.update(x=x, n=nn, phase='wait_new_leader', deadline=w.T + 40 * self.cfg['conf']['raftMaxTimeout'])
+            g = [0] * n
+            g[x] = 1
+            w.probe('deposed_scenario_started')
+            # N is down during the election (alone it would campaign and race ahead in terms)
+            self.queue.append([0.0, 'kill', nn, 1])
+            return [0.0, 'part', g]
+    elif ph == 'wait_new_leader':
+        ls = [i for i in _leaders(w) if i not in (st['x'], st['n'])]
+        if ls and w.hosts[st['x']].node is not None and st['x'] in _leaders(w):
+            st['phase'] = 'wait_ack'
+            w.probe('deposed_scenario_new_leader')
+            return [0.0, 'start', st['n']]
+    elif ph == 'wait_ack':
+        tap = w.tap
+        if tap.last_new_term_ack == (st['n'], w.hosts[st['n']].inc) and w.hosts[st['n']].node is not None:
+            st['phase'] = 'restart'
+            w.probe('deposed_scenario_kill_after_ack')
+            return [0.0, 'kill', st['n'], 1]
+    elif ph == 'restart':
+        st['phase'] = 'off'
+        g = [0] * n
+        g[st['x']] = g[st['n']] = 1
+        self.queue.append([rng.choice([0.0, 0.05]), 'start', st['n']])
+        return [0.0, 'part', g]
+    elif ph == 'off':
+        self.dep = None
+    return None
+
+
+C07Sched._deposed_scenario = _deposed_scenario
 
 
 class C07Spec(c03.C03Spec):
@@ -123,7 +240,25 @@ class C07Spec(c03.C03Spec):
         s['w_compact'] = 0.0 if not conf['dump'] else s['w_compact']
         s['p_kill_voter'] = rng.choice([0.1, 0.3, 0.6])
         s['max_down'] = rng.choice([1, 2, None])
+        if rng.random() < 0.4:
+            # five voters: a leader can be deposed by three others while a fourth node is down or away, which
+            # then learns the new term from append_entries alone
+            cfg['n_voters'] = 5
+            cfg['deposed_scenario'] = rng.random() < 0.5
+            if cfg['deposed_scenario']:
+                # the guided phases own the partitions of such a run
+                s['w_part'] = 0.0
+                s['w_heal'] = 0.0
+                s['churn'] = None
+                s['max_down'] = 1
+                s['w_kill'] = 0.0
+                s['w_killop'] = 0.0
+                s['p_kill_voter'] = 0.0
+                s['w_start'] = 0.0
         return cfg
+
+    def make_oracle(self, world, app):
+        return C07Oracle(world, app)
 
     def make_tap(self, world, oracle):
         return DurableTap(world, oracle)
